@@ -272,7 +272,7 @@ fn f6_history() -> Vec<Op>
 pub fn crashes_coarse(ctx : &Ctx, out : &mut Out)
 {
     let mut rng = Rng::new(ctx.seed).fork(1118);
-    let n = if ctx.thorough { 400 } else { 40 };
+    let n = if ctx.thorough { 400 } else { 20 };
     let mut total = 0usize;
     for i in 0..n + 1
     {
